@@ -161,7 +161,11 @@ class GaussianMixture:
         responsibilities = np.zeros((n_samples, self.n_components))
         for k in range(self.n_components):
             distances = np.sum((X - means[k]) ** 2, axis=1)
-            responsibilities[:, k] = np.exp(-0.5 * distances)
+            responsibilities[:, k] = -0.5 * distances
+        # Shift by the row maximum before exponentiating: points far from every
+        # centre would otherwise underflow to 0 / 0 = NaN.
+        responsibilities -= np.max(responsibilities, axis=1, keepdims=True)
+        responsibilities = np.exp(responsibilities)
         responsibilities /= np.sum(responsibilities, axis=1, keepdims=True)
 
         # Compute initial weights and covariances
